@@ -183,7 +183,9 @@ def main(argv=None):
     for key, what, fn in getattr(mod, 'PROBES', []):
         n_probes += 1
         try:
-            fn()
+            # a probe that does not come back (the code under test loops or blocks) is a finding, not a hung check
+            with common.case_watchdog(getattr(mod, 'PROBE_TIMEOUT', 300), 'probe %s' % key):
+                fn()
         except Violation as v:
             # the key names the probe *and* the oracle clause that failed, so that a
             # different failure inside the same probe is a different finding
